@@ -39,6 +39,18 @@ type Knobs struct {
 	LazyDen      int  // 0: all clients prompt; else a client is lazy with probability 1/LazyDen
 	StaleDeliver bool // deliver rescan answers that name a block no longer on the chain
 	BadHints     bool // allow client hints above the actual inclusion height
+
+	// backend-glue arms (drawn last): chain events reach the TxNotifier
+	// through a dispatcher that uses chainntnfs.RewindChain/HandleMissedBlocks
+	Glue        bool
+	GlueFaulty  bool // transient RPC failures and lost notifications
+	GlueAsync   bool // notifications may be delivered after further chain events
+	GlueAtomic  bool // reorgs are single chain events (the backend never shows a shortened chain)
+	GlueRPCDen  int  // an RPC fails with probability 1/GlueRPCDen ...
+	GlueMaxRPC  int  // ... at most this often per run
+	GlueDropDen int  // a notification is lost with probability 1/GlueDropDen ...
+	GlueMaxDrop int  // ... at most this often per run
+	NtfnW       int  // weight of delivering a pending notification
 }
 
 // reqState is the simulator's bookkeeping for one notification request
@@ -187,6 +199,7 @@ type Sim struct {
 	rescans  []*rescan
 
 	cur callCtx
+	g   *glue // backend-glue arms only
 
 	// evidence
 	notices    int // reorg notices observed
@@ -234,6 +247,9 @@ func (s *Sim) boot() {
 	s.ntUp = true
 	s.depth = 0
 	s.half = nil
+	if s.g != nil {
+		s.glueBoot()
+	}
 }
 
 // Close releases a possibly blocked notifier goroutine.
@@ -260,7 +276,19 @@ func (s *Sim) fail(rs *reqState, code, format string, args ...interface{}) {
 		}
 		s.R.FailSig("hint-frozen-pending-rescan", k, "%s [earlier in this run the persisted hint of %s stayed above the tip after DisconnectTip because its historical rescan was still unanswered; consequence class %s]", msg, rs.key, code)
 	}
-	if s.faultHit {
+	if s.g != nil {
+		if blk, way := s.glueTainted(rs); blk != nil {
+			k := "conf"
+			if rs != nil && rs.spend {
+				k = "spend"
+			}
+			if way == "mixed-catch-up" {
+				s.R.FailSig("catch-up-mixes-branches", k, "%s [backend glue: while catching up after missed blocks, HandleMissedBlocks filled the gap with blocks of the backend's CURRENT chain and the dispatcher then connected the announced block %v, which by then belonged to another branch, on top of them without checking that it extends them; the TxNotifier was fed a sequence that is no chain and what it recorded for the transactions concerned stays wrong; consequence class %s]", msg, blk, code)
+			}
+			s.R.FailSig("rewind-adopts-foreign-best", k, "%s [backend glue: RewindChain took the hash of the new best block from the backend's CURRENT chain, which had already switched branches, so the dispatcher adopted a block the TxNotifier never saw; the disconnect of %v, the block the TxNotifier really has at that height, was then lost (RPC error or missed notification), and HandleMissedBlocks sees nothing to rewind because the dispatcher's best hash is on the active chain; consequence class %s]", msg, blk, code)
+		}
+	}
+	if s.faultHit && s.g == nil {
 		switch code {
 		case "hint-above-event", "confirmed-not-told", "spend-not-told", "rescan-range-misses":
 			s.R.FailSig(code, "after-fault", "%s [faulty arm: earlier in this run a hint write was lost (injected I/O error, or crash inside a notifier call)]", msg)
@@ -320,6 +348,9 @@ func (s *Sim) call(what string, f func() error) error {
 	}
 	if pan != nil {
 		if panicFromLnd(pan.stack) {
+			if blk, _ := s.glueTaintedAny(); blk != nil {
+				s.fail(nil, "PANIC", "panic in code under test during %s: %v\n%s", what, pan.val, pan.stack)
+			}
 			// a crash of the notifier that follows a tainted rescan answer
 			// belongs to that finding
 			for _, rs := range s.reqOrder {
@@ -558,6 +589,10 @@ func (s *Sim) afterCall() {
 			s.fail(c.rs, "channel-closed", "%v: a notification channel was closed although the client neither cancelled nor was the notifier stopped", c)
 		}
 		if b.count() == 0 {
+			continue
+		}
+		if s.g != nil && s.g.lag {
+			s.judgeLag(c, b)
 			continue
 		}
 		s.judge(c, b, false)
